@@ -246,10 +246,8 @@ def run_c02(tier, seed):
     # large values over a slow link: the whole request is available, but no Read returns more than 1 / 16 / 1000 bytes (whatever the
     # server counts per Read - bytes, calls, buffer sizes - adds up over tens of thousands of reads)
     import thresholds as T
-    for size in ([70000, 300000] if tier == "quick" else [5000, 70000, 300000, 2 << 20]):
+    for size in ([70000, 300000] if tier == "quick" else [5000, 70000, 300000, 1000000, 2 << 20]):
         for cap in (1, 16, 1000):
-            if size * (1 if cap > 1 else 4) > (400000 if tier == "quick" else 3 << 20):
-                continue
             big = bytes((i * 31 + 7) % 251 for i in range(size))
             reqs = [("ECHO", [b"a"]), ("ECHO", [big]), ("ECHO", [b"z"])]
             data = b"".join(CG.request_bytes(n_, a_) for n_, a_ in reqs)
